@@ -39,6 +39,8 @@ SAFE_METHODS = {
     bytes: {"decode", "hex", "startswith", "endswith", "join", "rjust", "ljust"},
     bytearray: {"decode", "hex"},
 }
+for _ty in (str, bytes, bytearray, tuple, frozenset, int, list, dict, set):
+    SAFE_METHODS.setdefault(_ty, set()).update(n for n in dir(_ty) if not n.startswith("_"))
 SAFE_TYPE_ATTRS = {bytes: {"fromhex"}, int: {"from_bytes"}, dict: {"fromkeys"}}
 SAFE_MODULES = {"base64", "re", "math", "string"}
 
@@ -350,8 +352,19 @@ class MiniEval:
             for v in e.values:
                 if isinstance(v, ast.Constant):
                     parts.append(str(v.value))
-                else:
-                    parts.append("{" + u(v.value) + "}")
+                    continue
+                val = self.ev(v.value)
+                if v.conversion == 114:
+                    val = repr(val)
+                elif v.conversion == 115:
+                    val = str(val)
+                elif v.conversion == 97:
+                    val = ascii(val)
+                spec = self.ev(v.format_spec) if v.format_spec is not None else ""
+                try:
+                    parts.append(format(val, spec))
+                except (TypeError, ValueError):
+                    parts.append(str(val))
             return "".join(parts)
         if isinstance(e, ast.Lambda):
             fn = ast.FunctionDef(name="<lambda>", args=e.args, body=[ast.Return(value=e.body)], decorator_list=[])
@@ -422,7 +435,7 @@ class MiniEval:
             return getattr(base, attr)
         if type(base).__module__ == "re":
             return getattr(base, attr)
-        if isinstance(base, (list, dict, set, tuple, str, frozenset, bytes, bytearray)):
+        if isinstance(base, (list, dict, set, tuple, str, frozenset, bytes, bytearray, int)) and not isinstance(base, bool):
             for ty, names in SAFE_METHODS.items():
                 if isinstance(base, ty) and attr in names:
                     m = getattr(base, attr)
